@@ -78,6 +78,10 @@ def run(shard, rec):
             ref_list = f(s, cnt)
             if not bad and flat != ref_list:
                 bad = 'array variant != list variant'
+            if not bad:
+                other = f(s + b'!', n)                        # another request of the same size on the same object ...
+                if list(y.reshape(-1)) != flat:               # ... must leave the array handed out before untouched
+                    bad = 'an array returned earlier was changed by a later call on the same PRF object'
         elif n is None:
             flat = [y]
             if y2 != y or y3 != y:
